@@ -452,6 +452,10 @@ func (g *G) anyExpr(depth int, role string) *N {
 	}
 	g.budget--
 	lw := g.p.LitW
+	if g.p.JumpW >= 4 && g.noBrace == 0 && g.t.Chance(1, 10) {
+		// an iterator literal drained by `A`: one body activation (with its own defers) per value
+		return &N{K: KPropC, A: g.iterLit(depth - 1), Str: "A", Chain: Chain{Main: '.'}}
+	}
 	if g.p.Thoughtful && g.noBrace == 0 && g.t.Chance(1, 16) {
 		acc := []string{"val", "err?"}[g.t.Intn(2)]
 		return &N{K: KTry, A: g.intExpr(depth-1, "try/recv"), B: g.funcLit(1, nil, false, g.t.Chance(1, 2), depth, []string{"x"}), Str: acc}
@@ -652,6 +656,32 @@ func (g *G) scalarChain(depth int, needInt bool, role string) *N {
 	}
 }
 
+// iterLit builds `<{|i| pre; yield i if i < L; post; recur(i + 1)}>.new(0)`; pre/post are
+// expression statements and (guarded) defers that may use `i`.
+func (g *G) iterLit(depth int) *N {
+	it := &N{K: KIter, Int: int64(g.t.Intn(4))}
+	saved := g.intVars
+	savedSelf := g.selfMethods
+	g.selfMethods = nil
+	g.intVars = append(append([]string(nil), g.intVars...), "i")
+	stmts := func(n int) []*N {
+		var out []*N
+		for j := 0; j < n; j++ {
+			if g.p.JumpW > 0 && g.t.Chance(1, 3) {
+				out = append(out, &N{K: KDefer, A: g.anyExpr(depth, "defer/expr"), Guard: g.guard("defer/guard")})
+			} else {
+				out = append(out, &N{K: KExprS, A: g.anyExpr(depth, "stmt/expr")})
+			}
+		}
+		return out
+	}
+	it.L = stmts(g.t.Intn(3))
+	it.Post = stmts(g.t.Intn(2))
+	g.intVars = saved
+	g.selfMethods = savedSelf
+	return it
+}
+
 // listChain: recv@{|x| ...}, recv@^f, recv@+(e), [o, o]@m(e)
 func (g *G) listChain(depth int, role string) *N {
 	add := g.addCtx(true)
@@ -660,7 +690,13 @@ func (g *G) listChain(depth int, role string) *N {
 		defer func() { g.noFault-- }()
 	}
 	var recv *N
-	if g.t.Chance(1, 8) {
+	if add != '~' && g.noBrace == 0 && depth > 0 && g.t.Chance(1, 7) {
+		// an iterator literal as receiver: its body runs once per visited value
+		recv = g.iterLit(depth - 1)
+		if g.t.Chance(1, 3) {
+			return &N{K: KPropC, A: recv, Str: "A", Chain: Chain{Main: '.'}}
+		}
+	} else if g.t.Chance(1, 8) {
 		recv = &N{K: KInt, Int: int64(g.t.Intn(4))} // n@ iterates 1..n
 	} else {
 		recv = g.intArr(depth, 0, "chain/recv")
